@@ -723,6 +723,7 @@ static void purge_hook(int kind, uint64_t addr, uint64_t len);
 extern const char* (*g_op_name_of)(int prog, int op);
 
 [[noreturn]] void harness_run(const Plan& plan) {
+  g_sim_build_name = SIM_BUILD;
   H.plan = &plan;
   H.slots.assign((size_t)plan.nslots, nullptr); g_busy.assign((size_t)plan.nslots, 0);
   H.threads.resize(plan.progs.size()); g_prog_vt.assign(plan.progs.size(), -1);
